@@ -366,6 +366,33 @@ func (g *G) orderStmt() []Stmt {
 		}
 		s.HasDefault, s.DefaultPos, s.Default = true, 2, []Stmt{&ExprStmt{X: g.p()}}
 		return []Stmt{s}
+	case r < 19 && g.R.Intn(3) == 0:
+		// a nested assignment target: the operands of the container expression and the index are
+		// each evaluated once, also when the store appends (index len), adds a map entry or goes
+		// three levels deep. `ln` is built here and has no other name.
+		g.feat("stmt-nested-target-assign")
+		pvI := func(v int64) Expr { return &Call{Fn: "pv", Args: []Expr{&IntLit{V: g.probeID()}, &IntLit{V: v}}} }
+		pvS := func(v string) Expr { return &Call{Fn: "pv", Args: []Expr{&IntLit{V: g.probeID()}, &StrLit{V: v}}} }
+		mk := &Assign{LHS: []Expr{&Name{N: "ln"}}, RHS: []Expr{&ListLit{Elems: []Expr{
+			&ListLit{Elems: []Expr{&IntLit{V: 1}, &IntLit{V: 2}}},
+			&ListLit{Elems: []Expr{&IntLit{V: 3}}},
+			&MapLit{Keys: []Expr{&StrLit{V: "k"}}, Vals: []Expr{&IntLit{V: 4}}},
+			&ListLit{Elems: []Expr{&ListLit{Elems: []Expr{&IntLit{V: 5}}}}}}}}}
+		var target Expr
+		switch g.R.Intn(5) {
+		case 0:
+			target = &Index{X: &Index{X: &Name{N: "ln"}, I: pvI(0)}, I: pvI(int64(g.R.Intn(4)))} // 2 = append, 3 = out of range
+		case 1:
+			target = &Index{X: &Index{X: &Name{N: "ln"}, I: pvI(1)}, I: pvI(int64(g.R.Intn(2)))} // 1 = append
+		case 2:
+			target = &Index{X: &Index{X: &Name{N: "ln"}, I: pvI(2)}, I: pvS([]string{"k", "k2"}[g.R.Intn(2)])}
+		case 3:
+			target = &Member{X: &Index{X: &Name{N: "ln"}, I: pvI(2)}, Name: []string{"k", "k3"}[g.R.Intn(2)]}
+		default:
+			target = &Index{X: &Index{X: &Index{X: &Name{N: "ln"}, I: pvI(3)}, I: pvI(0)}, I: pvI(int64(g.R.Intn(2)))} // 1 = append
+		}
+		return []Stmt{mk, &Assign{LHS: []Expr{target}, RHS: []Expr{g.intOrd(d)}, Unaliased: true},
+			&ExprStmt{X: &Call{Fn: "rd", Args: []Expr{&StrLit{V: "ln"}, &Name{N: "ln"}}}}}
 	case r < 19 && g.R.Intn(2) == 0:
 		// all right-hand values are taken before the first store: the swap idiom
 		g.feat("stmt-swap-elements")
